@@ -5,7 +5,7 @@ accepted inputs) for the types CBMC can finish (see kani/molecule/gen.py)."""
 import json as _json, os, re
 from mir2smt.ob import *
 from mir2smt import terms as T
-from mir2smt.exec import OpaqueV, IntV, BoolV, AggV, EnumV, RefV, UNIT, Stop, mk_option
+from mir2smt.exec import OpaqueV, IntV, BoolV, AggV, EnumV, RefV, UNIT, Stop, mk_option, mk_result
 from mir2smt import envlib as E
 from mir2smt.builtins import deref
 
@@ -171,7 +171,343 @@ def m5_molecule_builders_write_canonical_layout(S):
         MM.builder_layout(S, ob, t)
 
 
-OBLIGATIONS = [m1_extra_hash, m2_hash_inputs, m3_json_block_extension, m4_molecule_strict_is_canonical, m5_molecule_builders_write_canonical_layout]
+# ---------------------------------------------------------------- m6: JSON <-> packed field wiring
+_J = "util/jsonrpc-types/src/blockchain.rs"
+# independent specification: which JSON field feeds which builder setter (json -> packed) and which packed getter path feeds which JSON
+# field (packed -> json).  `raw.` marks fields of the nested Raw* table.
+_JSON_SPEC = {
+    "Script": {"": ["code_hash", "hash_type", "args"]},
+    "CellOutput": {"": ["capacity", "lock", "type_"]},
+    "OutPoint": {"": ["tx_hash", "index"]},
+    "CellInput": {"": ["since", "previous_output"]},
+    "CellDep": {"": ["out_point", "dep_type"]},
+    "Transaction": {"raw": ["version", "cell_deps", "header_deps", "inputs", "outputs", "outputs_data"], "": ["witnesses"]},
+    "Header": {"raw": ["version", "compact_target", "timestamp", "number", "epoch", "parent_hash", "transactions_root", "proposals_hash", "extra_hash", "dao"], "": ["nonce"]},
+    "UncleBlock": {"": ["header", "proposals"]},
+    "Block": {"": ["header", "uncles", "transactions", "proposals", "extension"]},
+}
+_OPTION_FIELDS = {("CellOutput", "type_"), ("Block", "extension")}
+
+
+def _leaves(ex, v, depth=0):
+    """provenance leaves (JF<k>x = JSON field k, PG<k>x = packed getter k) occurring in a value"""
+    v = deref(ex, v) if ex is not None else v
+    out = set()
+    if isinstance(v, OpaqueV):
+        out |= set(re.findall(r"(?:JF|PG)\d+x", v.name))
+    elif isinstance(v, (IntV, BoolV)):
+        out |= set(re.findall(r"(?:JF|PG)\d+x", repr(v.t)))
+    elif isinstance(v, AggV):
+        for f in v.fields:
+            if depth < 6:
+                out |= _leaves(ex, f, depth + 1)
+    elif isinstance(v, EnumV):
+        out |= set(re.findall(r"(?:JF|PG)\d+x", repr(v.disc)))
+        for _, fs in v.payloads:
+            for f in fs:
+                if depth < 6:
+                    out |= _leaves(ex, f, depth + 1)
+    else:
+        items = getattr(v, "items", None)
+        if items is not None and depth < 6:
+            for f in items:
+                out |= _leaves(ex, f, depth + 1)
+    return out
+
+
+def _conv(ex, c, a, d):
+    ls = set()
+    for x in a:
+        ls |= _leaves(ex, x)
+    ex.ctx.counter += 1
+    return OpaqueV("conv%d_" % ex.ctx.counter + "_".join(sorted(ls)), d)
+
+
+def _find_from(S, hdr):
+    c = [f for f in S.prog.by_short.get("from", []) if "jsonrpc-types/src/blockchain.rs" in f.name and (f.impl_header or "") == hdr]
+    if len(c) != 1:
+        raise Inconclusive(f"{hdr}: {len(c)} candidates")
+    return c[0]
+
+
+def m6_json_field_wiring(S):
+    """packed -> JSON -> packed at the field-wiring level, for every JSON blockchain struct with both conversions: each JSON field is computed from
+    the same-named packed getter only, each builder setter receives the same-named JSON field only, every schema field is set exactly once (no field
+    left at the builder default), no path panics except the documented `expect(\"checked data\")` on an invalid enum byte; the enum conversions
+    (hash type, dep type) compose to the identity"""
+    from mir2smt.srcinfo import struct_fields
+    ob = "C15.m6"
+    for ty, spec in _JSON_SPEC.items():
+        fields = struct_fields(_J, ty)
+        want = [f for grp in spec.values() for f in grp]
+        S.prove(S.ctx(), ob, f"{ty}_spec_lists_every_json_field", [], bool(sorted(fields) == sorted(want)), extra={"note": f"{fields} vs {want}"})
+        # ---------------- json -> packed
+        optf = [f for f in fields if (ty, f) in _OPTION_FIELDS]
+        for variant in ([("some", True), ("none", False)] if optf else [("", None)]):
+            label, present = variant
+            ctx = S.ctx()
+            ctx.uninterpreted_unknown_calls = True
+            sets = []
+
+            def setter(ex, callee, args, dty, sets=sets):
+                f = re.sub(r"::<.*$", "", callee)
+                sets.append((f.split("::")[-2], f.split("::")[-1], _leaves(ex, args[1]), list(ex.pc)))
+                return OpaqueV(nm(ex, args[0]), dty)
+
+            def build(ex, c, a, d):
+                b = nm(ex, a[0])
+                ls = set()
+                for bb, f, l, _ in sets:
+                    if bb == b.split("::")[-1]:
+                        ls |= l
+                ex.ctx.counter += 1
+                return OpaqueV("built%d_%s_" % (ex.ctx.counter, b.split("::")[-1]) + "_".join(sorted(ls)), d)
+            ctx.env = [
+                (E.rx(r"Builder::\w+(::<.*>)?$"), setter),
+                (E.rx(r"::new_builder$"), lambda ex, c, a, d: OpaqueV(d, d)),
+                (E.rx(r"Builder>?::build$"), build),
+                (E.rx(r"as From<.*>>::from$|as Into<.*>>::into$|JsonBytes::into_bytes$|as Pack<.*>>::pack$|as Iterator>::|as IntoIterator>::|::iter$|::value$"), _conv),
+            ]
+            vals = []
+            for k, f in enumerate(fields):
+                leaf = OpaqueV(f"JF{k}x", "?")
+                vals.append(mk_option(present, leaf if present else None, "Option<?>") if f in optf else leaf)
+            ps = S.run(ctx, _find_from(S, f"impl From<{ty}> for packed::{ty}"), [AggV(tuple(vals), ty)])
+            tag = f"{ty}_to_packed" + (f"_{label}" if label else "")
+            S.prove(ctx, ob, f"{tag}_single_path_no_panic", [], bool(len(returns(ps)) == 1 and not panics(ps)))
+            for grp, names in spec.items():
+                for f in names:
+                    k = fields.index(f)
+                    if f in optf and not present:
+                        continue
+                    if ty == "Block" and f == "extension":
+                        got = [l for b, s, l, _ in sets if s == "extension"]
+                    elif f in optf:
+                        # Option field: goes through the <X>OptBuilder::set and then the same-named setter
+                        got = [l for b, s, l, _ in sets if s == f and not b.endswith("OptBuilder")]
+                    else:
+                        got = [l for b, s, l, _ in sets if s == f and (b.startswith("Raw") == (grp == "raw"))]
+                    S.prove(ctx, ob, f"{tag}_setter_{f}_receives_json_{f}_only", [], bool(len(got) == 1 and got[0] == {f"JF{k}x"}), extra={"note": str(got)})
+            # nothing else is set, the outer builder receives the built raw part
+            extra_sets = [(b, s) for b, s, l, _ in sets if s not in want + ["raw", "set"]]
+            S.prove(ctx, ob, f"{tag}_no_other_setter", [], bool(not extra_sets), extra={"note": str(extra_sets)})
+            if "raw" in spec:
+                rawset = [l for b, s, l, _ in sets if s == "raw"]
+                S.prove(ctx, ob, f"{tag}_raw_part_is_the_built_raw_builder", [],
+                        bool(len(rawset) == 1 and rawset[0] == {f"JF{fields.index(f)}x" for f in spec["raw"]}), extra={"note": str(rawset)})
+        # ---------------- packed -> json
+        ctx = S.ctx()
+        ctx.uninterpreted_unknown_calls = True
+        getters = {}
+
+        def getter(ex, callee, args, dty, getters=getters):
+            base = deref(ex, args[0])
+            bname = getattr(base, "name", "?")
+            g = re.sub(r"::<[^<>]*>$", "", callee).split("::")[-1]
+            path = (getters[bname][0] + "." if bname in getters else "") + g
+            name = f"PG{len(getters)}x"
+            for n, (pth, _) in getters.items():
+                if pth == path:
+                    name = n
+            getters[name] = (path, None)
+            if dty.strip() in ("bool", "usize", "u8", "u32", "u64"):
+                return ex.ctx.fresh_of_type(name + "_" + g, dty)
+            return OpaqueV(name, dty)
+
+        def to_opt(ex, c, a, d):
+            base = deref(ex, a[0])
+            return mk_option(ex.ctx.bool("present_" + getattr(base, "name", "x")).t, OpaqueV(getattr(base, "name", "x"), "?"), d)
+        ctx.env = [
+            (E.rx(r"(^|::)(Raw)?(Script|CellOutput|OutPoint|CellInput|CellDep|Transaction|Header|UncleBlock|Block)::(?!to_opt|as_|new_|default)\w+$|::extension$"), getter),
+            (E.rx(r"::to_opt$"), to_opt),
+            (E.rx(r"as TryFrom<.*>>::try_from$"), lambda ex, c, a, d: mk_result(ex.ctx.bool("enum_byte_valid").t, _conv(ex, c, a, "?"), OpaqueV("err", "?"), d)),
+            (E.rx(r"as From<.*>>::from$|as Into<.*>>::into$|JsonBytes::from_vec$|JsonBytes::from_bytes$|as Unpack<.*>>::unpack$|as Iterator>::|as IntoIterator>::|::iter$|closure"), _conv),
+        ]
+        ps = S.run(ctx, _find_from(S, f"impl From<packed::{ty}> for {ty}"), [OpaqueV("PGroot", "packed::" + ty)])
+        getters_by_path = {pth: n for n, (pth, _) in getters.items()}
+        if os.environ.get("VERIF_DEBUG"):
+            print("DEBUG", ty, getters_by_path, [[sorted(_leaves(None, x)) for x in getattr(p.value, "fields", [])] for p in returns(ps)][:2])
+        rs = returns(ps)
+        tag = f"{ty}_to_json"
+        valid = [T.var("enum_byte_valid")] if "enum_byte_valid" in ctx.decls else []
+        S.prove(ctx, ob, f"{tag}_panics_only_on_invalid_enum_byte", valid, T.not_(cond_of(panics(ps))))
+        S.prove(ctx, ob, f"{tag}_returns", [], bool(len(rs) >= 1))
+        for grp, names in spec.items():
+            for f in names:
+                k = fields.index(f)
+                src = getters_by_path.get(("raw." if grp == "raw" else "") + f)
+                oks = []
+                for p in rs:
+                    v = p.value
+                    fv = v.fields[k] if isinstance(v, AggV) and len(v.fields) == len(fields) else None
+                    ls = _leaves(None, fv) if fv is not None else None
+                    if fv is not None and (ty, f) in _OPTION_FIELDS and isinstance(fv, EnumV) and fv.disc == 0:
+                        oks.append(True)      # None arm: decided by presence of the packed option only
+                        continue
+                    oks.append(src is not None and ls == {src})
+                S.prove(ctx, ob, f"{tag}_field_{f}_comes_from_packed_{f}_only", [], bool(oks and all(oks)), extra={"note": f"getter={src} paths={len(rs)}"})
+    # ---------------- enum conversions: json <-> core compose to the identity
+    for ety, discs in (("ScriptHashType", [0, 1] + [n << 1 for n in range(1, 128)]), ("DepType", [0, 1])):
+        f1 = _find_from(S, f"impl From<{ety}> for core::{ety}")
+        f2 = _find_from(S, f"impl From<core::{ety}> for {ety}")
+        bad = []
+        for a_, b_, lab in ((f1, f2, "json_core_json"), (f2, f1, "core_json_core")):
+            for d in discs:
+                ctx = S.ctx()
+                ps = S.run(ctx, a_, [EnumV(d, (), "?")])
+                r1 = returns(ps)
+                if len(r1) != 1 or panics(ps) or not isinstance(r1[0].value, EnumV) or r1[0].value.disc != d:
+                    bad.append((lab, d, "first"))
+                    continue
+                ps2 = S.run(ctx, b_, [r1[0].value])
+                r2 = returns(ps2)
+                if not (len(r2) == 1 and not panics(ps2) and isinstance(r2[0].value, EnumV) and r2[0].value.disc == d):
+                    bad.append((lab, d, "second"))
+        if os.environ.get("VERIF_DEBUG"):
+            print("DEBUG", ety, bad[:6])
+        S.prove(S.ctx(), ob, f"{ety}_json_core_conversions_keep_the_discriminant_for_all_{len(discs)}_values", [], bool(not bad), extra={"note": str(bad[:5])})
+
+
+# ---------------------------------------------------------------- m7: cached hashes of views and header commitments
+def _nmx(ex, v):
+    v = deref(ex, v)
+    if isinstance(v, AggV):
+        return "[" + ",".join(_nmx(ex, f) for f in v.fields) + "]"
+    items = getattr(v, "items", None)
+    if items is not None:
+        return "[" + ",".join(_nmx(ex, f) for f in items) + "]"
+    return getattr(v, "name", None) or type(v).__name__
+
+
+def _call(tag):
+    return lambda ex, c, a, d: OpaqueV(tag + "(" + ",".join(_nmx(ex, x) for x in a) + ")", d)
+
+
+def _by_impl(S, short, impl_rx, nparams=None):
+    c = [f for f in S.prog.by_short.get(short, []) if re.search(impl_rx, f.impl_header or "") and (nparams is None or len(f.params) == nparams)]
+    if len(c) != 1:
+        raise Inconclusive(f"{short} [{impl_rx}]: {len(c)} candidates")
+    return c[0]
+
+
+def m7_view_hashes_and_roots(S):
+    """cached hashes in views equal recomputation, and the header commitments bind what the statement says: `into_view` of transaction / header / uncle stores the entity
+    itself together with calc_tx_hash / calc_witness_hash / calc_header_hash of that same entity; the block view's hash is the header hash of the block it stores;
+    `reset_header_with_hashes` writes transactions_root = merkle_root([merkle_root(tx hashes), merkle_root(witness hashes)]) (that order), proposals_hash and extra_hash of this
+    block; `BlockView::calc_transactions_root / calc_witnesses_root`; extra hash = ExtraHashView(uncles hash, extension hash); uncles hash = H(header hashes in order), zero
+    when empty; proposals hash = H(ids in order), zero when empty"""
+    ob = "C15.m7"
+    base_env = [
+        (E.rx(r"::calc_tx_hash$"), _call("txhash")),
+        (E.rx(r"::calc_witness_hash$"), _call("whash")),
+        (E.rx(r"::calc_header_hash$"), _call("hhash")),
+        (E.rx(r"::as_reader$"), lambda ex, c, a, d: OpaqueV(_nmx(ex, a[0]), d)),
+        (E.rx(r"(^|::)merkle_root$"), _call("MR")),
+    ]
+    # --- into_view of transaction / header / uncle
+    for ent, impl, want in (("Transaction", r"IntoTransactionView for packed::Transaction", ["tx", "txhash(tx)", "whash(tx)"]),
+                            ("Header", r"IntoHeaderView for packed::Header", ["hdr", "hhash(hdr)"]),
+                            ("UncleBlock", r"IntoUncleBlockView for packed::UncleBlock", ["uncle", "hhash(uncle)"])):
+        ctx = S.ctx()
+        ctx.env = list(base_env)
+        ps = S.run(ctx, _by_impl(S, "into_view", impl), [OpaqueV(want[0], ent)])
+        rs = returns(ps)
+        got = [_nmx(None, f) for f in rs[0].value.fields] if len(rs) == 1 and isinstance(rs[0].value, AggV) else None
+        S.prove(ctx, ob, f"{ent}_into_view_stores_the_entity_and_its_own_hashes", [], bool(got == want and not panics(ps)), extra={"note": str(got)})
+    # --- block view: hash is the header hash of the stored block, uncle hashes from the stored block's uncles
+    ctx = S.ctx()
+    ctx.uninterpreted_unknown_calls = True
+    ctx.env = list(base_env) + [(E.rx(r"Reader(::<'_>)?(<'_>)?::uncles$"), _call("uncles")), (E.rx(r"as Iterator>::|as IntoIterator>::|::iter$|as From<.*>>::from$|as Into<.*>>::into$"), _call("it"))]
+    ps = S.run(ctx, _by_impl(S, "block_into_view_internal", r"IntoBlockView for packed::Block"), [OpaqueV("blk", "Block"), OpaqueV("txh", "Vec<Byte32>"), OpaqueV("twh", "Vec<Byte32>")])
+    rs = returns(ps)
+    got = [_nmx(None, f) for f in rs[0].value.fields] if len(rs) == 1 and isinstance(rs[0].value, AggV) else None
+    fi = None
+    from mir2smt.srcinfo import field_index
+    fi = field_index("util/types/src/core/views.rs", "BlockView")
+    S.prove(ctx, ob, "block_view_hash_is_header_hash_of_the_stored_block", [],
+            bool(got is not None and got[fi["data"]] == "blk" and got[fi["hash"]] == "hhash(blk)" and got[fi["tx_hashes"]] == "txh" and got[fi["tx_witness_hashes"]] == "twh"
+                 and "uncles(blk)" in got[fi["uncle_hashes"]] and not panics(ps)), extra={"note": str(got)})
+    # --- into_view of a block: hashes of this block's transactions, header reset with exactly those
+    ctx = S.ctx()
+    ctx.env = [(E.rx(r"::calc_tx_hashes$"), _call("txhashes")), (E.rx(r"::calc_tx_witness_hashes$"), _call("whashes")),
+               (E.rx(r"::reset_header_with_hashes$"), _call("reset")), (E.rx(r"::block_into_view_internal$"), _call("view")),
+               (E.rx(r"as Index<RangeFull>>::index$|as Deref>::deref$"), lambda ex, c, a, d: OpaqueV(_nmx(ex, a[0]), d))]
+    ps = S.run(ctx, _by_impl(S, "into_view", r"IntoBlockView for packed::Block"), [OpaqueV("blk", "Block")])
+    rs = returns(ps)
+    got = _nmx(None, rs[0].value) if len(rs) == 1 else None
+    S.prove(ctx, ob, "block_into_view_resets_header_with_this_blocks_tx_and_witness_hashes", [],
+            bool(got == "view(reset(blk,txhashes(blk),whashes(blk)),txhashes(blk),whashes(blk))" and not panics(ps)), extra={"note": str(got)})
+    # --- reset_header_with_hashes
+    for label, present in (("with_extension", True), ("without_extension", False)):
+        ctx = S.ctx()
+        ctx.uninterpreted_unknown_calls = True
+        sets = []
+
+        def setter(ex, callee, args, dty, sets=sets):
+            f = re.sub(r"::<[^<>]*>$", "", callee)
+            sets.append((f.split("::")[-2], f.split("::")[-1], _nmx(ex, args[1]), _nmx(ex, args[0])))
+            return OpaqueV(_nmx(ex, args[0]), dty)
+        ctx.env = list(base_env) + [
+            (E.rx(r"Builder::\w+(::<.*>)?$"), setter),
+            (E.rx(r"::new_builder$"), lambda ex, c, a, d: OpaqueV("new:" + d.split("::")[-1], d)),
+            (E.rx(r"::as_builder$"), lambda ex, c, a, d: OpaqueV("builder_of:" + _nmx(ex, a[0]), d)),
+            (E.rx(r"Builder>?::build$"), lambda ex, c, a, d: OpaqueV("built:" + _nmx(ex, a[0]), d)),
+            (E.rx(r"::calc_proposals_hash$"), _call("phash")), (E.rx(r"::calc_extra_hash$"), _call("xview")), (E.rx(r"ExtraHashView::extra_hash$"), _call("xhash")),
+            (E.rx(r"::extension$"), lambda ex, c, a, d: mk_option(present, OpaqueV("ext(" + _nmx(ex, a[0]) + ")", "Bytes") if present else None, d)),
+            (E.rx(r"Block::(header|uncles|transactions|proposals)$|Header::raw$|::as_v0$"), lambda ex, c, a, d: OpaqueV(c.split("::")[-1] + "(" + _nmx(ex, a[0]) + ")", d)),
+        ]
+        ps = S.run(ctx, _by_impl(S, "reset_header_with_hashes", r"ResetBlock for packed::Block"), [OpaqueV("blk", "Block"), ctx.ref_to(OpaqueV("txh", "[Byte32]")), ctx.ref_to(OpaqueV("twh", "[Byte32]"))])
+        rs = returns(ps)
+        S.prove(ctx, ob, f"reset_header_{label}_single_path_no_panic", [], bool(len(rs) == 1 and not panics(ps)))
+        d = {(b, f): (v, recv) for b, f, v, recv in sets}
+        S.prove(ctx, ob, f"reset_header_{label}_transactions_root_binds_tx_hashes_then_witness_hashes", [],
+                bool(d.get(("RawHeaderBuilder", "transactions_root"), ("",))[0] == "MR([MR(txh),MR(twh)])"), extra={"note": str(d.get(("RawHeaderBuilder", "transactions_root")))})
+        S.prove(ctx, ob, f"reset_header_{label}_proposals_hash_of_this_block", [], bool(d.get(("RawHeaderBuilder", "proposals_hash"), ("",))[0] == "phash(blk)"), extra={"note": str(d.get(("RawHeaderBuilder", "proposals_hash")))})
+        S.prove(ctx, ob, f"reset_header_{label}_extra_hash_of_this_block", [], bool(d.get(("RawHeaderBuilder", "extra_hash"), ("",))[0] == "xhash(xview(blk))"), extra={"note": str(d.get(("RawHeaderBuilder", "extra_hash")))})
+        S.prove(ctx, ob, f"reset_header_{label}_starts_from_this_blocks_raw_header_and_header", [],
+                bool(d.get(("RawHeaderBuilder", "transactions_root"), ("", ""))[1] == "builder_of:raw(header(blk))" and d.get(("HeaderBuilder", "raw"), ("", ""))[1] == "builder_of:header(blk)"
+                     and d.get(("HeaderBuilder", "raw"), ("",))[0] == "built:builder_of:raw(header(blk))"), extra={"note": str(d.get(("HeaderBuilder", "raw")))})
+        if present:
+            want = {"header": "built:builder_of:header(blk)", "uncles": "uncles(blk)", "transactions": "transactions(blk)", "proposals": "proposals(blk)", "extension": "ext(blk)"}
+            got = {f: v for (b, f), (v, r) in d.items() if b == "BlockV1Builder"}
+            S.prove(ctx, ob, "reset_header_with_extension_keeps_body_and_extension", [], bool(got == want), extra={"note": str(got)})
+        else:
+            got = {f: (v, r) for (b, f), (v, r) in d.items() if b == "BlockBuilder"}
+            S.prove(ctx, ob, "reset_header_without_extension_replaces_only_the_header", [], bool(got == {"header": ("built:builder_of:header(blk)", "builder_of:blk")}), extra={"note": str(got)})
+    # --- BlockView::calc_transactions_root / calc_witnesses_root (what the merkle-root verifier compares)
+    from mir2smt.srcinfo import struct_fields
+    bvf = struct_fields("util/types/src/core/views.rs", "BlockView")
+    for fn, want in (("calc_witnesses_root", "MR(tx_witness_hashes)"), ("calc_raw_transactions_root", "MR(tx_hashes)"), ("calc_transactions_root", "MR([rroot,wroot])")):
+        ctx = S.ctx()
+        ctx.env = list(base_env) + [(E.rx(r"as Index<RangeFull>>::index$|as Deref>::deref$"), lambda ex, c, a, d: OpaqueV(_nmx(ex, a[0]), d))]
+        if fn == "calc_transactions_root":
+            ctx.env += [(E.rx(r"BlockView::calc_witnesses_root$"), lambda ex, c, a, d: OpaqueV("wroot", d)), (E.rx(r"BlockView::calc_raw_transactions_root$"), lambda ex, c, a, d: OpaqueV("rroot", d))]
+        ps = S.run(ctx, _by_impl(S, fn, r"impl BlockView"), [ctx.ref_to(AggV(tuple(OpaqueV(f, "?") for f in bvf), "BlockView"))])
+        rs = returns(ps)
+        got = _nmx(None, rs[0].value) if len(rs) == 1 else None
+        S.prove(ctx, ob, f"BlockView_{fn}_is_{re.sub(r'[^A-Za-z0-9]+', '_', want)}", [], bool(got == want and not panics(ps)), extra={"note": str(got)})
+    # --- extra hash view of a block reader
+    ctx = S.ctx()
+    ctx.env = [(E.rx(r"::calc_uncles_hash$"), _call("uhash")), (E.rx(r"::calc_extension_hash$"), _call("ehash")), (E.rx(r"ExtraHashView::new$"), _call("XV"))]
+    ps = S.run(ctx, _by_impl(S, "calc_extra_hash", r"CalcExtraHash for packed::BlockReader"), [ctx.ref_to(OpaqueV("br", "BlockReader"))])
+    rs = returns(ps)
+    got = _nmx(None, rs[0].value) if len(rs) == 1 else None
+    S.prove(ctx, ob, "block_extra_hash_view_is_uncles_hash_and_extension_hash", [], bool(got == "XV(uhash(br),ehash(br))" and not panics(ps)), extra={"note": str(got)})
+    # --- uncles hash / proposals hash over 0..2 items
+    for fn, impl, item in (("calc_uncles_hash", r"packed::UncleBlockVecReader", lambda i: f"slice.hhash(u{i})"), ("calc_proposals_hash", r"packed::ProposalShortIdVecReader", lambda i: f"slice.u{i}")):
+        for n in (0, 1, 2):
+            ctx = S.ctx()
+            items = [OpaqueV(f"u{i}", "?") for i in range(n)]
+            ctx.env = hash_env(ctx) + list(base_env) + [(E.rx(r"Reader(::<'_>)?(<'_>)?::is_empty$"), lambda ex, c, a, d, n=n: BoolV(n == 0)),
+                                                       (E.rx(r"Reader(::<'_>)?(<'_>)?::iter$"), E.list_source(items)), (E.rx(r"Byte32>?::zero$"), lambda ex, c, a, d: OpaqueV("ZERO", d))] + list(E.LIST_ITER)
+            ps = S.run(ctx, _by_impl(S, fn, impl), [ctx.ref_to(OpaqueV("vec", "?"))])
+            rs = returns(ps)
+            got = _nmx(None, rs[0].value) if len(rs) == 1 else None
+            want = "ZERO" if n == 0 else "H(" + "|".join(item(i) for i in range(n)) + ")"
+            S.prove(ctx, ob, f"{fn}_of_{n}_items_binds_them_in_order", [], bool(got == want and not panics(ps)), extra={"note": str(got)})
+
+
+OBLIGATIONS = [m1_extra_hash, m2_hash_inputs, m3_json_block_extension, m4_molecule_strict_is_canonical, m5_molecule_builders_write_canonical_layout, m6_json_field_wiring, m7_view_hashes_and_roots]
 
 _P = os.path.join(os.path.dirname(__file__), "..", "kani", "molecule", "gen_molecule.json")
 _OKFILE = os.path.join(os.path.dirname(__file__), "..", "kani", "molecule", "feasible.json")
